@@ -278,7 +278,12 @@ func genAmount(t *rapid.T, label string) int64 {
 
 func propC02(t *rapid.T) {
 	useProfile(profSmall)
+	if rapid.IntRange(0, 3).Draw(t, "withInternal") == 0 {
+		// wallets restored with internal (change-branch) addresses, which receive coins like the others
+		worldInternalHint = uint32(rapid.IntRange(1, 2).Draw(t, "internalIndex"))
+	}
 	w := newWorld(t, 2, 20, nil)
+	worldInternalHint = 0
 	defer w.close()
 	w.c09mode = true
 	w.allowNullData = false
@@ -552,6 +557,7 @@ func propC02(t *rapid.T) {
 				bad = "duplicate"
 			}
 			nOut := rapid.IntRange(1, 3).Draw(t, "manualOuts")
+			overspend := bad == "" && rapid.IntRange(0, 3).Draw(t, "overspend") == 0
 			amounts := map[string]massutil.Amount{}
 			var outs []wantOut
 			var outSum int64
@@ -562,6 +568,10 @@ func propC02(t *rapid.T) {
 					continue
 				}
 				v := inSum / int64(nOut+1+rapid.IntRange(0, 2).Draw(t, "frac"))
+				if overspend {
+					// a request the named inputs cannot pay for: it must fail AFTER the inputs were accepted
+					v = inSum/int64(nOut) + 1000000*int64(1+rapid.IntRange(0, 50).Draw(t, "over"))
+				}
 				if v < 20000 {
 					v = 20000
 				}
@@ -586,6 +596,38 @@ func propC02(t *rapid.T) {
 			if err != nil {
 				if bad == "" && inSum < outSum && len(sub) == 0 && err != masswallet.ErrNotEnoughInputs {
 					t.Fatalf("%s: inputs %d < outputs %d, want the not-enough-inputs error, got %v", what, inSum, outSum, err)
+				}
+				if bad == "" {
+					// no transaction came back, so nothing is held by a draft: the named coins are as
+					// eligible as before. Ask for (almost) everything that is eligible.
+					c.labels["failed-manual-create"] = true
+					elig := c.eligible(t, nil)
+					k := blockchain.GetMaxStandardTxSize() / 154
+					if len(elig) > 0 && len(elig) <= k {
+						var sum int64
+						for _, co := range elig {
+							sum += co.Value
+						}
+						fhi := relayMin(int64(blockchain.GetMaxStandardTxSize())) + massutil.MinRelayTxFee().IntValue()
+						if sum > 2*fhi+100000 {
+							addr, _ := strangerAddr()
+							want := sum - fhi
+							hexProbe, _, perr := w.env.W.AutoCreateRawTransaction(map[string]massutil.Amount{addr: amountOf(want)}, 0, massutil.ZeroAmount(), "", "", nil)
+							if perr != nil {
+								t.Fatalf("after %s failed (%v), an automatic create for %d of the %d eligible (unspent, mature, unreserved) funds failed: %v - the failed request still holds its inputs\n  %s", what, err, want, sum, perr, w.journalTail(12))
+							}
+							raw, _ := hex.DecodeString(hexProbe)
+							var ptx wire.MsgTx
+							if ptx.SetBytes(raw, wire.Packet) == nil {
+								for _, in := range ptx.TxIn {
+									c.reserved[in.PreviousOutPoint] = true
+								}
+								c.drafts++
+							}
+							c.labels["probe-after-failed-manual"] = true
+							c.nontriv = true
+						}
+					}
 				}
 				continue
 			}
